@@ -34,8 +34,21 @@ def _edges(rng, lo, hi, n, full=False):
     return e
 
 
+def _sq(r1, r2):
+    return (r2 - r1) * (r2 + r1)  # r2**2 - r1**2 without cancellation (a thin ring far out)
+
+
+def _cube(r1, r2):
+    return (r2 - r1) * (r2 * r2 + r1 * r2 + r1 * r1)
+
+
+def _cosd(t1, t2):
+    return 2.0 * math.sin((t1 + t2) / 2) * math.sin((t2 - t1) / 2)  # cos t1 - cos t2 (a narrow cap at a pole)
+
+
 def measure(kind, cell):
-    """Closed formulas of the statement, cell = list of (left, right) per axis."""
+    """Closed formulas of the statement, cell = list of (left, right) per axis (evaluated in forms that do not lose the
+    measure of a thin bin to cancellation)."""
     if kind in ("h1", "h1_gapped"):
         (a, b), = cell
         return b - a
@@ -43,22 +56,22 @@ def measure(kind, cell):
         return math.prod(b - a for a, b in cell)
     if kind == "polar":
         (r1, r2), (p1, p2) = cell
-        return (r2 * r2 - r1 * r1) / 2 * (p2 - p1)
+        return _sq(r1, r2) / 2 * (p2 - p1)
     if kind == "radial":
         (r1, r2), = cell
-        return math.pi * (r2 * r2 - r1 * r1)
+        return math.pi * _sq(r1, r2)
     if kind == "azimuthal":
         (p1, p2), = cell
         return p2 - p1
     if kind == "spherical":
         (r1, r2), (t1, t2), (p1, p2) = cell
-        return (r2**3 - r1**3) / 3 * (math.cos(t1) - math.cos(t2)) * (p2 - p1)
+        return _cube(r1, r2) / 3 * _cosd(t1, t2) * (p2 - p1)
     if kind == "spherical_surface":
         (t1, t2), (p1, p2) = cell
-        return (math.cos(t1) - math.cos(t2)) * (p2 - p1)
+        return _cosd(t1, t2) * (p2 - p1)
     if kind == "cylindrical":
         (r1, r2), (p1, p2), (z1, z2) = cell
-        return (r2 * r2 - r1 * r1) / 2 * (p2 - p1) * (z2 - z1)
+        return _sq(r1, r2) / 2 * (p2 - p1) * (z2 - z1)
     if kind == "cylindrical_surface":
         (p1, p2), (z1, z2) = cell
         return (p2 - p1) * (z2 - z1)
@@ -122,6 +135,16 @@ def build(rng: random.Random, kind: str):
     else:
         axes = [phi(), zed()]
         cls = sp.CylindricalSurfaceHistogram
+    if kind in ("spherical", "spherical_surface", "radial", "polar", "cylindrical") and rng.random() < 0.15:
+        # thin bins where the closed formulas subtract nearly equal numbers: a cap of 1e-8 rad at a pole, a 1 mm shell at the earth's radius
+        if kind in ("spherical", "spherical_surface") and rng.random() < 0.6:
+            ti = 1 if kind == "spherical" else 0
+            axes[ti] = rng.choice([[0.0, 1e-8, 1e-6, 0.5], [0.3, math.pi - 1e-6, math.pi], [0.0, 1e-7, 1.0, math.pi]])
+            if axes[ti][0] != 0.0 or axes[ti][-1] != math.pi:
+                full = False
+        elif kind != "spherical_surface":
+            axes[0] = [6371000.0, 6371000.001, 6371000.0025, 6371001.0]
+            full = False
     bins = [np.array(a) if gapped else np.array(a, dtype=float) for a in axes]
     if not gapped and kind in ("h1", "h2", "hnd", "radial", "polar", "spherical", "cylindrical") and rng.random() < 0.15:
         # edges given as integers (a python list of ints, time stamps in an int32 array, ADC counts in int16): the bins are the same intervals
